@@ -4,6 +4,8 @@ package main
 
 import (
 	"fmt"
+	"go/token"
+	"go/types"
 	"regexp"
 	"regexp/syntax"
 	"sort"
@@ -74,7 +76,7 @@ var wireMulti = map[string][]wireRow{
 	"gtfs.AlertInformedEntity.RouteID": {
 		{"", []string{"EntitySelector.RouteId"}, nil, nil},
 		{"", []string{"EntitySelector.Trip"}, []string{"append", "(*proto.TripDescriptor)→(*gtfs.TripID)", "(*proto.TripDescriptor)→(gtfs.TripID)"}, nil}, // fallback: the trip descriptor's route id
-		{"", nil, []string{"append"}, nil},
+		{"", nil, []string{"append", "(gtfs._)→([]string)"}, nil}, // the keys of the fallback table, possibly handed out (sorted) by a method of it
 	},
 	"gtfs.AlertInformedEntity.RouteType": {
 		{"", []string{"EntitySelector.RouteType"}, []string{"(*int32)→(gtfs.RouteType)"}, nil},
@@ -83,6 +85,7 @@ var wireMulti = map[string][]wireRow{
 	"gtfs.AlertInformedEntity.DirectionID": {
 		{"", []string{"EntitySelector.DirectionId"}, []string{"(*uint32)→(gtfs.DirectionID)"}, nil},
 		{"", nil, nil, []string{"const:"}},
+		{"", nil, []string{"(gtfs._,string)→(gtfs.DirectionID)", "(gtfs._)→([]string)"}, nil}, // the fallback table asked for a route's direction (what it answers is the FALLBACK rules' subject)
 	},
 	"gtfs.AlertInformedEntity.TripID": {
 		{"", []string{"EntitySelector.Trip"}, []string{"(*proto.TripDescriptor)→(*gtfs.TripID)"}, nil},
@@ -195,6 +198,23 @@ func runWireTable(c *Ctx) {
 						} else if e2 != expr {
 							why += " [as the callers see it: " + clip(e2, 200) + ": " + matchWire(b, e2, r) + "]"
 						}
+					}
+				}
+			}
+			if why != "" && strings.Contains(expr, "param:<") {
+				// other context (the options' extension, the zone) handed down as parameters too
+				direct := map[*ssa.Function]bool{}
+				for _, e := range p.Callers(fs.fn) {
+					if fnSet[e.Caller] {
+						direct[e.Caller] = true
+					}
+				}
+				for _, within := range []map[*ssa.Function]bool{direct, fnSet} {
+					if why == "" {
+						break
+					}
+					if e3 := b.bindInContextT(fs.fn, fs.store.Val, within, 0, ""); e3 != expr && matchWire(b, e3, r) == "" {
+						expr, why = e3, ""
 					}
 				}
 			}
@@ -429,7 +449,7 @@ func runUnits(c *Ctx) {
 					if strings.HasPrefix(atom, "piece[") {
 						var k int64
 						fmt.Sscanf(atom, "piece[%d]", &k)
-						if e := localArrayCell(f, k); e != "" {
+						if e := regionArrayCell(c, f, k); e != "" {
 							atom = e
 						}
 					}
@@ -494,7 +514,13 @@ func runUnits(c *Ctx) {
 		b := newBinder(c)
 		b.showBodies = true // the groups may be converted by a helper
 		ok, why := false, "no time.Date call"
-		for _, blk := range f.Blocks {
+		var dateBlocks []*ssa.BasicBlock
+		for _, g := range c.regionOf(f) {
+			if g == f || strings.HasPrefix(fnPkgPath(g), modPath) && !isProtoPkg(fnPkgPath(g)) {
+				dateBlocks = append(dateBlocks, g.Blocks...)
+			}
+		}
+		for _, blk := range dateBlocks {
 			for _, in := range blk.Instrs {
 				call, isCall := in.(*ssa.Call)
 				if !isCall || calleeName(call) != "time.Date" {
@@ -502,6 +528,26 @@ func runUnits(c *Ctx) {
 				}
 				a := call.Call.Args
 				exprs := []string{b.bind(a[0]), b.bind(a[1]), b.bind(a[2])}
+				for i := 0; i < 3; i++ {
+					// an element of a small array of numbers that a helper filled: what was stored there
+					v := a[i]
+					for {
+						if cv, isConv := v.(*ssa.Convert); isConv {
+							v = cv.X
+							continue
+						}
+						if ct, isCT := v.(*ssa.ChangeType); isCT {
+							v = ct.X
+							continue
+						}
+						break
+					}
+					if k, isElem := constArrayElem(v); isElem {
+						if e := regionArrayCell(c, f, k); e != "" {
+							exprs[i] = strings.ReplaceAll(strings.ReplaceAll(e, "const(", "const:"), ")]", "]")
+						}
+					}
+				}
 				ok = strings.Contains(exprs[0], "[const:1]") && strings.Contains(exprs[1], "[const:2]") && strings.Contains(exprs[2], "[const:3]")
 				for i := 3; i <= 6; i++ {
 					if k, isC := constInt(a[i]); !isC || k != 0 {
@@ -666,4 +712,41 @@ func unwrapCell(e string) string {
 		e = e[len("cell(&(") : len(e)-2]
 	}
 	return e
+}
+
+// regionArrayCell: what element k of the one local array of numbers holds that the function or a helper it reaches
+// fills (constant-index stores, or a loop over the array's indices); "" unless exactly one function has such an array.
+func regionArrayCell(c *Ctx, f *ssa.Function, k int64) string {
+	var found []string
+	seen := map[*ssa.Function]bool{}
+	for _, g := range append([]*ssa.Function{f}, c.regionOf(f)...) {
+		if seen[g] || len(g.Blocks) == 0 {
+			continue
+		}
+		seen[g] = true
+		if e := localArrayCell(g, k); e != "" {
+			found = append(found, e)
+		}
+	}
+	if len(found) != 1 {
+		return ""
+	}
+	return found[0]
+}
+
+// constArrayElem: v is element k (a constant) of an array value or of an array variable.
+func constArrayElem(v ssa.Value) (int64, bool) {
+	switch x := v.(type) {
+	case *ssa.Index:
+		if _, isArr := x.X.Type().Underlying().(*types.Array); isArr {
+			return constInt(x.Index)
+		}
+	case *ssa.UnOp:
+		if ia, ok := x.X.(*ssa.IndexAddr); ok && x.Op == token.MUL {
+			if _, isArr := deref(ia.X.Type()).Underlying().(*types.Array); isArr {
+				return constInt(ia.Index)
+			}
+		}
+	}
+	return 0, false
 }
